@@ -28,10 +28,10 @@ CODES = {
 
 
 def groups(ctx):
-    g = ["num1", "bits", "lists", "tem", "strings", "times", "dates", "num34"]
+    g = ["dates.0/2", "dates.1/2", "days", "num34", "times", "num1", "bits", "lists", "tem", "strings"]
     if ctx.thorough:
-        return ["num2.%d/10" % k for k in range(10)] + g
-    return ["num2.0/2", "num2.1/2"] + g
+        return g[:4] + ["num2.%d/10" % k for k in range(10)] + g[4:]
+    return g[:3] + ["num2.0/2", "num2.1/2"] + g[3:]
 
 
 def _txt(codes):
